@@ -24,6 +24,11 @@ from src import __version__
 from src.core.types import Violation
 
 
+def _utf8_safe(text: str) -> str:
+    """Replace surrogate-escaped bytes (undecodable file names / contents) as the text and JSON outputs do."""
+    return text.encode("utf-8", errors="surrogateescape").decode("utf-8", errors="replace")
+
+
 class SarifFormatter:
     """Formats Violation objects as SARIF v2.1.0 JSON documents.
 
@@ -174,7 +179,7 @@ class SarifFormatter:
             "ruleId": violation.rule_id,
             "level": "error",
             "message": {
-                "text": violation.message,
+                "text": _utf8_safe(violation.message),
             },
             "locations": [self._create_location(violation)],
         }
@@ -191,7 +196,7 @@ class SarifFormatter:
         return {
             "physicalLocation": {
                 "artifactLocation": {
-                    "uri": violation.file_path,
+                    "uri": _utf8_safe(str(violation.file_path)),
                 },
                 "region": {
                     "startLine": violation.line,
